@@ -229,14 +229,106 @@ theorem derivation_sound (fuel : Nat) : Sound G (pegGet G fuel) := by
 
 /-! ### parsing looks at token classes only (`,` and `;` are one class) -/
 
+/-- replace the text of every token by `g` of it (the class is kept) -/
+def retok (g : String → String) (t : Tok) : Tok := (t.1, g t.2)
+
 mutual
-  def shape : PTree → PTree
-    | .leaf t => .leaf (t.1, "")
-    | .node c kids => .node c (shapeL kids)
-  def shapeL : List PTree → List PTree
+  def retextT (g : String → String) : PTree → PTree
+    | .leaf t => .leaf (retok g t)
+    | .node c kids => .node c (retextL g kids)
+  def retextL (g : String → String) : List PTree → List PTree
     | [] => []
-    | k :: ks => shape k :: shapeL ks
+    | k :: ks => retextT g k :: retextL g ks
 end
+
+def retextRes (g : String → String) : PRes → PRes
+  | .ok t rest => .ok (retextT g t) (rest.map (retok g))
+  | .none => .none
+  | .raise => .raise
+  | .depth => .depth
+
+def retextSeq (g : String → String) : SeqRes → SeqRes
+  | .done kids rest m => .done (retextL g kids) (rest.map (retok g)) m
+  | .fail m => .fail m
+  | .raise => .raise
+  | .depth => .depth
+
+/-- `getF` commutes with relabelling the texts -/
+def Blind (g : String → String) (getF : String → List Tok → PRes) : Prop :=
+  ∀ cls toks, getF cls (toks.map (retok g)) = retextRes g (getF cls toks)
+
+theorem seq_blind (g : String → String) (getF : String → List Tok → PRes) (hf : Blind g getF) (syms : List String) (toks : List Tok) :
+    seqMatch G getF syms (toks.map (retok g)) = retextSeq g (seqMatch G getF syms toks) := by
+  induction syms generalizing toks with
+  | nil => simp [seqMatch, retextSeq, retextL]
+  | cons sym syms ih =>
+    cases toks with
+    | nil => simp [seqMatch, retextSeq]
+    | cons t ts =>
+      simp only [List.map_cons, seqMatch]
+      have hk : (retok g t).1 = t.1 := rfl
+      rw [hk]
+      by_cases h1 : (sym == t.1) = true
+      · simp only [h1, ↓reduceIte]
+        rw [ih ts]
+        cases seqMatch G getF syms ts <;> simp [retextSeq, retextL, retextT]
+      · simp only [h1, Bool.false_eq_true, ↓reduceIte]
+        by_cases h2 : G.composites.contains sym = true
+        · simp only [h2, ↓reduceIte]
+          have := hf sym (t :: ts)
+          simp only [List.map_cons] at this
+          rw [this]
+          cases hg : getF sym (t :: ts) with
+          | ok tree r1 =>
+            simp only [retextRes]
+            rw [ih r1]
+            cases seqMatch G getF syms r1 <;> simp [retextSeq, retextL]
+          | none => simp [retextRes, retextSeq]
+          | raise => simp [retextRes, retextSeq]
+          | depth => simp [retextRes, retextSeq]
+        · have h2' : sym ∉ G.composites := by simpa using h2
+          simp [h2', retextSeq]
+
+theorem trySets_blind (g : String → String) (getF : String → List Tok → PRes) (hf : Blind g getF) (cls : String) (toks : List Tok)
+    (sets : List (List String)) (saw : Bool) :
+    trySets G getF cls (toks.map (retok g)) sets saw = retextRes g (trySets G getF cls toks sets saw) := by
+  induction sets generalizing saw with
+  | nil => simp only [trySets]; split <;> simp [retextRes]
+  | cons set sets ih =>
+    simp only [trySets]
+    rw [seq_blind G g getF hf set toks]
+    cases seqMatch G getF set toks with
+    | done kids r m =>
+      simp only [retextSeq]
+      split
+      · exact ih _
+      · simp [retextRes, retextT]
+    | fail m => simp only [retextSeq]; exact ih _
+    | raise => simp [retextSeq, retextRes]
+    | depth => simp [retextSeq, retextRes]
+
+/-- **Separator-blind**: the parse depends on the token classes only - replacing token texts (`;` by `,`, one literal by
+    another, one spelling of a reference by another) changes nothing but the leaves' texts. -/
+theorem kinds_only (g : String → String) (fuel : Nat) : Blind g (pegGet G fuel) := by
+  induction fuel with
+  | zero => intro cls toks; simp [pegGet, retextRes]
+  | succ n ih =>
+    intro cls toks
+    simp only [pegGet]
+    exact trySets_blind G g (pegGet G n) ih cls toks _ _
+
+/-- in particular acceptance does not depend on the choice of `,` or `;` -/
+theorem separator_blind (fuel : Nat) (entry : String) (toks : List Tok) :
+    (match astBuild G fuel entry (toks.map (retok fun s => if s == ";" then "," else s)) with
+      | .accept _ => 0 | .reject => 1 | .depth => 2) =
+    (match astBuild G fuel entry toks with | .accept _ => 0 | .reject => 1 | .depth => 2) := by
+  unfold astBuild
+  rw [kinds_only G _ fuel entry toks]
+  cases pegGet G fuel entry toks with
+  | ok t rest => cases rest <;> simp [retextRes]
+  | none => simp [retextRes]
+  | raise => simp [retextRes]
+  | depth => simp [retextRes]
 
 /-! ### the lexer tries longer keywords first -/
 
